@@ -285,9 +285,10 @@ static void run_step(Json& js, vh::Rng& rng, long budget) {
 static void run_agc(Json& js, vh::Rng& rng, long budget) {
     for (long t = 0; t < budget; ++t) {
         const double target = std::pow(10.0, -2 + 4 * rng.unif());        // 0.01 .. 100 (power)
-        const double maxg = 10 + 70 * rng.unif();                          // dB
+        const double maxg = 10 + 90 * rng.unif();                          // dB
         const int alen = (int)std::pow(10.0, 3 * rng.unif());              // 1 .. 1000
-        const double amp = std::pow(10.0, -2 + 4 * rng.unif());            // input level over 80 dB
+        // input level over 80 dB: amplitudes 0.01 .. 100, or (every other pair of cases) the audio-style window 1e-4 .. 1
+        const double amp = std::pow(10.0, ((t / 2) % 2 ? -4 : -2) + 4 * rng.unif());
         const int kind = (int)rng.range(0, 2);                             // complex exponential / DC / +-A
         const int n = 60000 + 40 * alen;
         Agc agc(target, maxg, alen, 0.01, 0.01);
